@@ -20,11 +20,11 @@ use serde_json::json;
 use crate::engine::{idx, journal, Case, Ctx, Job, Sm64};
 use crate::session::threadpool;
 
-pub const RULE: &str = "reconstruction plans: 1-5 virtual xorbs (2-20 chunks of 1-200 bytes with pairwise distinct contents, stored uncompressed or LZ4), 1-40 terms (repeated xorbs, differing sizes), fetch ranges that contain the term ranges (often strictly larger, several terms per fetch range), one URL per (xorb, fetch range), optional byte range [a,b) inside the file (single byte, whole file, starting / ending mid-term) with the term list trimmed and offset_into_first_range set the way a server does; each plan is reconstructed with the sequential and the parallel writer, without cache, with a cold disk chunk cache and again warm, against a local HTTP range server (127.0.0.1) that delays each response by a generated amount and counts requests; NUM_CONCURRENT_RANGE_GETS in {1, 2, 16} per child process. Oracle: output file = concatenated term data sliced by the byte range, returned length = slice length = output size, sequential = parallel, warm = cold (whether the warm pass needed the network is reported, not asserted). non-trivial = plan with >= 3 terms, a fetch range strictly larger than a term, and a byte range starting and ending mid-term; distinct by fingerprint of the generated plan";
+pub const RULE: &str = "reconstruction plans: 1-5 virtual xorbs (2-20 chunks of 1-200 bytes with pairwise distinct contents, stored uncompressed or LZ4), 1-40 terms (repeated xorbs, differing sizes), fetch ranges that contain the term ranges (often strictly larger, several terms per fetch range), one URL per (xorb, fetch range), optional byte range [a,b) inside the file (single byte, whole file, starting / ending mid-term or exactly on a term boundary, including a first listed term that the offset skips entirely) with the term list trimmed and offset_into_first_range set the way a server does; each plan is reconstructed with the sequential and the parallel writer, without cache, with a cold disk chunk cache and again warm, against a local HTTP range server (127.0.0.1) that delays each response by a generated amount and counts requests; NUM_CONCURRENT_RANGE_GETS in {1, 2, 16} per child process. Oracle: output file = concatenated term data sliced by the byte range, returned length = slice length = output size, sequential = parallel, warm = cold (whether the warm pass needed the network is reported, not asserted). non-trivial = plan with >= 3 terms, a fetch range strictly larger than a term, and a byte range starting and ending mid-term; distinct by fingerprint of the generated plan";
 
 pub const ASSUMPTIONS: &[&str] = &[
     "fetch URLs are unique per (xorb, fetch range), as production URLs that embed the signed range are (the download de-duplication is keyed by URL only)",
-    "offset_into_first_range lies inside the first listed term and byte ranges lie inside the file (the server's contract)",
+    "offset_into_first_range lies inside the first listed term or equals its length (a first term skipped entirely), and byte ranges lie inside the file (the server's contract)",
     "response completion order is perturbed by generated delays, not enumerated",
     "the output path does not exist before a reconstruction",
 ];
@@ -56,7 +56,7 @@ fn plan_strategy() -> impl Strategy<Value = Plan> {
         proptest::collection::vec((any::<u8>(), any::<u8>(), any::<u8>()), 1..40),
         proptest::collection::vec((any::<u8>(), any::<u8>(), any::<u8>()), 0..8),
         (0u8..4, 0u8..4),
-        proptest::option::weighted(0.7, (any::<u16>(), any::<u16>(), 0u8..4)),
+        proptest::option::weighted(0.7, (any::<u16>(), any::<u16>(), 0u8..7)),
         proptest::collection::vec(prop_oneof![3 => Just(0u16), 2 => 0u16..400, 1 => 400u16..1500], 1..6),
     )
         .prop_map(|(xorbs, terms, fetch, slack, range, delays_us)| Plan { xorbs, terms, fetch, slack, range, delays_us })
@@ -328,24 +328,43 @@ fn materialize(p: &Plan, port: u16) -> Materialized {
     let (terms, offset, byte_range, mid) = match p.range {
         None => (all_terms.iter().zip(term_spans.iter()).map(|(t, sp)| to_term(t, sp)).collect::<Vec<_>>(), 0u64, None, false),
         Some((a, b, kind)) => {
-            let start = idx(a, total);
-            let end = match kind {
+            let mut start = idx(a, total);
+            // kinds 4 / 5: the range starts exactly on a term boundary; kind 6: it ends on one
+            if kind == 4 || kind == 5 {
+                if let Some(sp) = term_spans.iter().rev().find(|sp| sp.0 <= start && sp.0 > 0) {
+                    start = sp.0;
+                }
+            }
+            let mut end = match kind {
                 1 => start + 1,
                 2 => total,
                 _ => start + 1 + idx(b, total - start),
             };
+            if kind == 6 {
+                if let Some(sp) = term_spans.iter().find(|sp| sp.1 >= end) {
+                    end = sp.1;
+                }
+            }
             // server-side trimming: keep the terms that intersect [start, end)
             let mut kept = Vec::new();
             let mut first_start = None;
-            for (t, sp) in all_terms.iter().zip(term_spans.iter()) {
+            let mut first_idx = 0usize;
+            for (ti, (t, sp)) in all_terms.iter().zip(term_spans.iter()).enumerate() {
                 if sp.1 > start && sp.0 < end {
                     if first_start.is_none() {
                         first_start = Some(sp.0);
+                        first_idx = ti;
                     }
                     kept.push(to_term(t, sp));
                 }
             }
-            let fs = first_start.unwrap_or(0);
+            let mut fs = first_start.unwrap_or(0);
+            // kind 4: a server that does not trim the term ending exactly where the range starts: the first listed
+            // term is skipped entirely by the offset (offset == its length)
+            if kind == 4 && first_start.is_some() && first_idx > 0 && term_spans[first_idx - 1].1 == start && term_spans[first_idx - 1].1 > term_spans[first_idx - 1].0 {
+                kept.insert(0, to_term(&all_terms[first_idx - 1], &term_spans[first_idx - 1]));
+                fs = term_spans[first_idx - 1].0;
+            }
             let mid = term_spans.iter().all(|sp| sp.0 != start) && term_spans.iter().all(|sp| sp.1 != end);
             (kept, (start - fs) as u64, Some((start as u64, end as u64)), mid)
         },
